@@ -382,3 +382,5 @@ class MinimizerIMinuit(MinimizerBase):
         # invalidate cache
         self._did_fit = True
         self._invalidate_cache()
+        # MIGRAD's last evaluation is in general not at the optimum: hand the reported values to the function
+        self._func_wrapper_unpack_args(self.parameter_values)
